@@ -30,30 +30,26 @@ T = TypeVar("T", bound=Cell)
 
 def pickle_gridcell(obj):
     """Helper function for pickling GridCell instances."""
-    # we have the base class and the state via __getstate__
-    args = obj.__class__.__bases__[0], obj.__getstate__()
-    return unpickle_gridcell, args
+    # The cell is recreated from its base class and coordinate first and its state (via __getstate__) is
+    # set afterwards: pickle and deepcopy memoise the new cell before they copy the agents in it, so
+    # agents pointing back to their cell find this one copy.
+    return (
+        unpickle_gridcell,
+        (obj.__class__.__bases__[0], obj.coordinate),
+        obj.__getstate__(),
+    )
 
 
-def unpickle_gridcell(parent, fields):
+def unpickle_gridcell(parent, coordinate):
     """Helper function for unpickling GridCell instances."""
-    # since the class is dynamically created, we recreate it here
+    # since the class is dynamically created, we recreate it here; Grid.__setstate__ gives all cells
+    # of the grid one shared class again
     cell_klass = type(
         "GridCell",
         (parent,),
         {"_mesa_properties": set()},
     )
-    instance = cell_klass(
-        (0, 0)
-    )  # we use a default coordinate and overwrite it with the correct value next
-
-    # __gestate__ returns a tuple with dict and slots, but slots contains the dict so we can just use the
-    # second item only
-    for k, v in fields[1].items():
-        if k != "__dict__":
-            setattr(instance, k, v)
-
-    return instance
+    return cell_klass(coordinate)
 
 
 class Grid(DiscreteSpace[T], Generic[T], HasPropertyLayers):
